@@ -174,6 +174,8 @@ pub mod proto {
         Tick,
         /// the free-space manager had no run for a record write: (blocks wanted, 0) + key, timestamp
         AllocFail,
+        /// a retirement found readers inside the extent and was postponed: (sector, 0 = before the markers / 1 = before the release) + key
+        RetireBlocked,
         /// a worker visited one of its shards: (worker id, shard id), timestamp = entries drained
         WorkerFlush,
     }
